@@ -307,6 +307,8 @@ def run(ctx):
     d2_run_is_open_typestate(ctx, rm)
     d3_guards(ctx, rm)
     d4_provenance(ctx, rm)
+    from . import c06
+    c06.bundler_forgotten_only_after_successful_close(ctx, rm, "C01.D2-forgotten-only-after-successful-close")
     ctx.extra.update(tail.g.stats())
 
 
